@@ -4,6 +4,6 @@ import verdicts
 
 
 def run(ck):
-    verdicts.check(ck, "C03", ["AsModel.Theorems.C03"])
+    verdicts.check(ck, "C03", ["AsModel.Theorems.C03", "AsModel.Theorems.C05Report"])
     ck.build_harness("rt")
     rendered.run(ck, "C03")
